@@ -64,6 +64,10 @@ pub enum TabOp {
     RemoveReinsert(u8),
     Entry(u8, TAct),
     FindMut(u8),
+    /// find_entry -> OccupiedEntry::{get, get_mut, into_mut} writes
+    EntryAccessors(u8),
+    /// try_reserve(n) with a serving allocator: 0 = 1 more than the spare room, 1 = twice the capacity
+    TryReserve(u8),
     Retain(Ret),
     /// extract_if with predicate kind, dropped after this many yielded items (255 = run to the end)
     ExtractIf(Ret, u8),
@@ -388,6 +392,31 @@ impl TabHarness {
                     chk!(c, s.count(id) == 0, "find_mut({id}) = None but the element is stored");
                 }
             }
+            TabOp::EntryAccessors(id) => match s.table.find_entry(plan_hash(id), eq_id(id)) {
+                Ok(mut o) => {
+                    let old = o.get().tok;
+                    chk!(c, o.get().id == id && s.model.contains(&(id, old)), "find_entry({id}).get() returned an element that is not stored");
+                    let t1 = s.next_tok;
+                    s.next_tok += 2;
+                    o.get_mut().tok = t1;
+                    let r = o.into_mut();
+                    chk!(c, r.tok == t1, "OccupiedEntry::into_mut does not see the write made through get_mut");
+                    r.tok = t1 + 1;
+                    chk!(c, s.remove_tok(old), "find_entry({id}) returned an element that is not stored");
+                    s.model.push((id, t1 + 1));
+                }
+                Err(a) => {
+                    let _ = a.into_table();
+                    chk!(c, s.count(id) == 0, "find_entry({id}) is absent but the element is stored");
+                }
+            },
+            TabOp::TryReserve(k) => {
+                let len = s.table.len();
+                let add = if k == 0 { s.table.capacity() - len + 1 } else { 2 * s.table.capacity() + 1 };
+                let r = s.table.try_reserve(add, hasher);
+                chk!(c, r.is_ok(), "try_reserve({add}) failed with a serving allocator: {:?}", r);
+                chk!(c, s.table.capacity() >= len + add, "try_reserve({add}) = Ok but capacity() = {} < len {len} + {add}", s.table.capacity());
+            }
             TabOp::Retain(kind) => {
                 let mut seen = Vec::new();
                 let mut kept = Vec::new();
@@ -574,6 +603,7 @@ impl Harness for TabHarness {
             if self.cfg.full_alphabet {
                 v.push(TabOp::RemoveReinsert(id));
                 v.push(TabOp::FindMut(id));
+                v.push(TabOp::EntryAccessors(id));
                 for &a in TACTS {
                     if !room && s.count(id) == 0 && !matches!(a, TAct::Remove | TAct::IntoTable) {
                         continue;
@@ -605,6 +635,10 @@ impl Harness for TabHarness {
                 continue;
             }
             v.push(TabOp::Reserve(r));
+        }
+        if self.cfg.full_alphabet && nb < self.cfg.max_buckets {
+            v.push(TabOp::TryReserve(0));
+            v.push(TabOp::TryReserve(1));
         }
         v.push(TabOp::ShrinkToFit);
         v.push(TabOp::ShrinkTo(Shr::LenPlus1));
